@@ -22,6 +22,9 @@ DEFAULT_PROFILE = dict(
 )
 
 
+RAW_FN_NAMES = ["r#match", "r#type", "r#move", "r#return", "r#use"]
+
+
 def pick_names(rng, n, taken):
     names = []
     pool = [x for x in PLAIN_NAMES if x not in taken]
@@ -246,7 +249,8 @@ class FnCaseBuilder:
         trait_vis = rng.choice(["", "pub", "pub(crate)"])
         fns = []
         if self.mode == "fn":
-            f = random_fn(rng, rng.choice(["foo", "subject", "compute", "r#try"]) if False else rng.choice(["foo", "subject", "compute"]),
+            raw_ok = (self.profile or {}).get("allow_raw_fn_names", True)
+            f = random_fn(rng, rng.choice(["foo", "subject", "compute", "foo", "subject", "compute"] + (RAW_FN_NAMES if raw_ok else [])),
                           self.profile, helpers)
             f.fn_id = "%s::%s" % (self.cid, f.name)
             fns = [f]
@@ -258,8 +262,12 @@ class FnCaseBuilder:
             same_sig = rng.random() < 0.5 and n >= 2
             all_nodeps = False
             template = None
+            raw_pool = list(RAW_FN_NAMES) if (self.profile or {}).get("allow_raw_fn_names", True) else []
+            rng.shuffle(raw_pool)
             for i in range(n):
                 name = "m%d" % i
+                if raw_pool and rng.random() < 0.12:
+                    name = raw_pool.pop()   # a keyword as fn name, written as a raw identifier
                 if same_sig and template is not None:
                     import copy
                     f = copy.deepcopy(template)
